@@ -1,12 +1,19 @@
 import HexProofs.Resume.FindCalcIndex
+import HexProofs.Footprint.Kinds
 /-
 C07 – Work per appended candle is constant.
-What is proved (every float carrier `F`): after warm-up the resume logic makes every indicator
+What is proved (every float carrier `F`): (1) after warm-up the resume logic makes every indicator
 node compute exactly ONE reading per appended (or merged) candle, whatever the history length,
-and a complete list triggers no computation at all.  What is NOT a theorem: the size of the
-look-back window each `_calculate_reading` touches (it is bounded by the indicator's periods –
-measured on the real code with a recording list and `sys.setprofile`, see hx/oracles/framework.py)
-and wall-clock cost.  Status: partial, by nature (DESIGN.md, C07).
+and a complete list triggers no computation at all; (2) **bounded footprint**: for every read-only
+indicator class (all 14 leaf classes incl. `Amorph` over the 20 analysis functions, and the own readings
+of ATR, BBANDS, KC, STDEVTHRES) that one reading is a function of the last `W + 1` candles only, `W = window k`
+a function of the parameters alone (`bounded_footprint`, `newest_reading_reads_window`) – candles older than
+`index − W` are never looked at, however long the history.
+What is NOT a theorem: the footprint of the nine kinds whose step also WRITES helper series (HMA, STDEV,
+Supertrend, RSI, MACD, STOCH, TSI, ADX, VWAP: `window k = none`; measured on the real code with a recording
+list and `sys.setprofile`, see hx/oracles/framework.py), the candle manager's own O(n) re-walk of the list on
+every append (outside the property's statement, which is about indicator work) and wall-clock cost.
+Status: partial, by nature (DESIGN.md, C07).
 -/
 namespace Hex.C07
 open Hex
@@ -61,5 +68,30 @@ theorem calcLoop_one (f : Nat) (ind : Ind F) (cs : List (Candle F)) (k : Nat) (c
     obtain ⟨v, cs'⟩ := p
     simp only
     cases setReading ind.isSub ind.name cs' k (v.roundBy ind.round) <;> rfl
+
+/-! ### bounded footprint of one reading -/
+
+/-- **A reading at index `i` touches only candles `i − W … i`**: dropping any `d` older candles
+(`d + W ≤ i`) leaves it unchanged – for every kind with `window k = some W` (every read-only kind,
+`window_isSome_iff`), every list, every index; no reachable-state hypothesis is needed. -/
+theorem bounded_footprint (k : Kind F) (W : Nat) (hw : Hex.window k = some W) (cs : List (Candle F)) (i : Int)
+    (nm : String) (d : Nat) (hd : (d : Int) + W ≤ i) (hi : i < cs.length) :
+    readKind k { cs := cs, i := i, name := nm } = readKind k { cs := cs.drop d, i := i - d, name := nm } :=
+  footprint k W hw cs i nm d hd hi
+
+/-- **The newest reading is a function of the last `W + 1` candles**, whatever the history length. -/
+theorem newest_reading_reads_window (k : Kind F) (W : Nat) (hw : Hex.window k = some W) (nm : String) :
+    ∃ g : List (Candle F) → PyM (Val F), ∀ cs : List (Candle F), W < cs.length →
+      (cs.drop (cs.length - 1 - W)).length = W + 1 ∧
+      readKind k { cs := cs, i := (cs.length : Int) - 1, name := nm } = g (cs.drop (cs.length - 1 - W)) :=
+  newest_reading_is_window_function k W hw nm
+
+/-- the window is defined exactly for the read-only kinds -/
+theorem window_defined_iff_readOnly (k : Kind F) : (Hex.window k).isSome = k.readOnly := window_isSome_iff k
+
+/-- the windows are functions of the parameters only, e.g. SMA 20 → 20, EMA 20 → 19, Aroon 14 → 14, doji → 10 -/
+example : Hex.window (F := F) (.sma 20 "close") = some 20 ∧ Hex.window (F := F) (.ema 20 "close" (.int 2)) = some 19
+    ∧ Hex.window (F := F) (.aroon 14) = some 14 ∧ Hex.window (F := F) (.amorph (.doji none)) = some 10 := by
+  refine ⟨rfl, rfl, rfl, rfl⟩
 
 end Hex.C07
